@@ -7,7 +7,7 @@ from .cards import (premise_layout, check_filter_cells, check_comb_table, check_
                     set_partition_orderings, arr_of, describe_slots, slot_atoms, PC, refute_sort_on_cards)
 from ..evals import BitVec, b_or, b_and, b_not, b_deps, children, substitute, cell_representatives
 from ..sym import Exec, State, mk_bin, mk_cast, mk_ite, and_all, mk_not, CFG
-from ..pdb import INT_BITS
+from ..pdb import INT_BITS, is_signed
 
 LOOKUPS = {"FLUSHES": "lookups::FLUSHES", "UNIQUE_5": "lookups::UNIQUE_5", "PRODUCTS": "lookups::PRODUCTS", "VALUES": "lookups::VALUES"}
 
@@ -1455,6 +1455,162 @@ def perm_table_name(path):
     return path + "::FIVE_CARD_PERMUTATIONS"
 
 
+def value_use(dags, vnames, leafnames=()):
+    """How the DAGs use some scalar atoms.  `vnames` must be used as *ordered values* only: compared with each other or
+    with constants, widened, selected and returned — never fed to arithmetic, bit operations, calls or table indexes.
+    `leafnames` must be pure payload: selected and returned, never even compared.  -> (constants the values are
+    compared with, None) or (None, reason)."""
+    nodes, seen = [], set()
+    for d in dags:
+        for x in walk(d):
+            if id(x) not in seen:
+                seen.add(id(x))
+                nodes.append(x)
+    parents = {}
+    for x in nodes:
+        for ch in children(x):
+            parents.setdefault(id(ch), []).append(x)
+    consts = set()
+    carriers, payload = {}, {}
+    work = []
+    for x in nodes:
+        if x[0] == "atom" and x[1] in vnames:
+            carriers[id(x)] = x
+            work.append(x)
+        elif x[0] == "atom" and x[1] in leafnames:
+            payload[id(x)] = x
+    while work:
+        cur = work.pop()
+        for p_ in parents.get(id(cur), []):
+            k = p_[0]
+            if k == "bin" and p_[1] in ("Lt", "Le", "Gt", "Ge", "Eq", "Ne"):
+                other = p_[3] if p_[2] is cur else p_[2]
+                if other is cur or id(other) in carriers:
+                    continue
+                if other[0] == "c" and isinstance(other[1], int):
+                    consts.add(other[1])
+                    continue
+                return None, "a value is compared with %s" % (other[1] if other[0] in ("atom", "call") else other[0])
+            if k == "ite" and p_[1] is not cur:
+                if id(p_) not in carriers:
+                    carriers[id(p_)] = p_
+                    work.append(p_)
+                continue
+            if k == "agg":
+                continue
+            if k == "cast":
+                ft, tt = ty_of(cur), p_[2]
+                if ft in INT_BITS and tt in INT_BITS and not is_signed(ft) and not is_signed(tt) and INT_BITS[tt] >= INT_BITS[ft]:
+                    if id(p_) not in carriers:
+                        carriers[id(p_)] = p_
+                        work.append(p_)
+                    continue
+            return None, "a value flows into %s" % (p_[1] if k in ("bin", "un", "call") else k)
+    # selections that carry a value must not mix it with something else that is then compared
+    for cid, c_ in carriers.items():
+        if c_[0] == "ite":
+            for br in (c_[2], c_[3]):
+                if id(br) not in carriers and not (br[0] == "c"):
+                    if any(q[0] == "bin" for q in parents.get(cid, [])):
+                        return None, "a selection between a value and something else is compared"
+    work = list(payload.values())
+    pl = dict(payload)
+    while work:
+        cur = work.pop()
+        for p_ in parents.get(id(cur), []):
+            if p_[0] == "ite" and p_[1] is not cur:
+                if id(p_) not in pl:
+                    pl[id(p_)] = p_
+                    work.append(p_)
+                continue
+            if p_[0] == "agg":
+                if id(p_) not in pl:
+                    pl[id(p_)] = p_
+                    work.append(p_)
+                continue
+            return None, "a card of a hand flows into %s" % (p_[1] if p_[0] in ("bin", "un", "call") else p_[0])
+    return consts, None
+
+
+def value_reps(consts, ty="u16"):
+    """values covering every cell the constants cut out of the type's range, three per cell when it has room (so that
+    two values of one cell can be smaller / equal / greater)"""
+    hi_ = (1 << INT_BITS[ty]) - 1
+    cs = {c for c in consts if 0 <= c <= hi_} | {0}
+    out = set()
+    for lo, hi in cell_representatives(cs, ty):
+        out |= {lo, hi, (lo + hi) // 2}
+    return sorted(out)
+
+
+def decide_update(ctx, ob, path, where, Tv, Th, bname, xname, cnames, onames, fixed_b=None):
+    """One best-so-far update, decided for *every* (best so far, candidate value): Tv / Th are the new value and the new
+    remembered hand as DAGs over the atoms bname (best so far), xname (value of the ranked candidate), cnames (the
+    candidate's cards) and onames (the remembered hand's cards).  The values may only be used as ordered values; the
+    constants they are compared with cut the range into cells, and every pair of cell representatives is folded."""
+    rep, pdb = ctx.rep, ctx.pdb
+    stray = sorted(set(atoms_of(Tv)) - {bname, xname})
+    if any(c_.startswith("fn:") for c_ in calls_of(Tv)):
+        stray.append("the result of another call")
+    ob("value-only-update", short(path), not stray,
+       "the new best value depends on %s besides the best so far and the ranking of the current candidate (state carried between iterations, or the candidate's words read directly)" % stray, where)
+    if stray:
+        return False
+    dags = [Tv]
+    if Th is not None:
+        stray_h = sorted(set(atoms_of(Th)) - {bname, xname} - set(cnames) - set(onames))
+        if any(c_.startswith("fn:") for c_ in calls_of(Th)):
+            stray_h.append("the result of another call")
+        if stray_h:
+            ob("witness-follows-value", short(path), False, "the remembered hand depends on %s besides the two values, the candidate and the previous hand" % stray_h, where)
+            Th = None
+        else:
+            dags.append(Th)
+    consts, why = value_use(dags, {bname, xname}, set(cnames) | set(onames))
+    if why is not None:
+        for nm in ("keeps-smallest-nonzero", "witness-follows-value", "nonzero-preserving"):
+            ob(nm, short(path), False, "UNCERTIFIED: the update computes with the values instead of comparing them (%s): it cannot be tabulated over all pairs of values" % why, where)
+        return False
+    reps = value_reps(consts)
+    breps = reps if fixed_b is None else [fixed_b]
+    badv = badw = badz = badm = None
+    cand_v = [300 + j for j in range(5)]
+    old_v = [200 + j for j in range(5)]
+    for bv_ in breps:
+        for xv in reps:
+            env = {bname: bv_, xname: xv, "$contract:find_in_products": lambda k: C(0, "usize")}
+            env.update({nm: 300 + j for j, nm in enumerate(cnames)})
+            env.update({nm: 200 + j for j, nm in enumerate(onames)})
+            gotv = cval(evaluate(pdb, Tv, env))
+            expv = xv if bv_ == 0 else (xv if (xv != 0 and xv < bv_) else bv_)
+            if gotv != expv:
+                badv = badv or (bv_, xv, gotv, expv)
+            if xv != 0 and gotv == 0:
+                badz = badz or (bv_, xv)
+            if Th is None:
+                continue
+            goth = [cval(x) for x in arr_of(evaluate(pdb, Th, env))]
+            if expv == xv and xv != bv_:
+                if goth != cand_v:
+                    badw = badw or (bv_, xv, "kept the old hand although the candidate set the new best value")
+            elif expv == bv_ and xv != bv_:
+                if goth != old_v:
+                    badw = badw or (bv_, xv, "replaced the remembered hand although the best value did not change")
+            elif goth not in (cand_v, old_v):
+                badw = badw or (bv_, xv, "remembered hand is neither the candidate nor the previous best")
+            # the stored pair is consistent: the value kept is the value of the hand kept
+            if not ((goth == cand_v and gotv == xv) or (goth == old_v and gotv == bv_)):
+                badm = badm or (bv_, xv, gotv, "the candidate" if goth == cand_v else ("the previous hand" if goth == old_v else "another hand"))
+    rep.evals(len(breps) * len(reps))
+    ob("keeps-smallest-nonzero", short(path), badv is None,
+       "with best so far %s and candidate value %s the update keeps %s, the smallest non-zero value is %s" % (badv or (0, 0, 0, 0)), where)
+    ob("nonzero-preserving", short(path), badz is None, "with best so far %s and a candidate of value %s the running best becomes 0" % (badz or (0, 0)), where)
+    if Th is not None:
+        ob("witness-follows-value", short(path), badw is None, "with best so far %s and candidate value %s: %s" % (badw or (0, 0, "")), where)
+        ob("witness-matches-value", short(path), badm is None, "with best so far %s and candidate value %s the update stores value %s together with %s (the reported value must be the value of the reported hand)" % (badm or (0, 0, 0, "")), where)
+    return len(breps) * len(reps)
+
+
 def bestof_loop(ctx, path, n, rule, need):
     """Transformer-level analysis of the candidate loop in hand_rank_value_and_hand of Six/Seven.
     Returns a dict of facts or None (violations already reported)."""
@@ -1493,7 +1649,20 @@ def bestof_loop(ctx, path, n, rule, need):
     if h not in outs1:
         return bestof_peel(ctx, path, n, rule, need, ob, key, sty, k5v, "the loop body does not come back to its header")
     frame1 = outs1[h][1].frames[fid]
-    carried = [l for l in sorted(frame0) if l in frame1 and frame1[l] is not frame0[l]]
+    # loop-carried state: every local that is live at the header and written somewhere in the loop body (a local
+    # that only changes from the second iteration on is state too), plus whatever the first iteration changed
+    mir_ = pdb.fn(key)["mir"]
+    body_ = cfg.loops[h]
+    written = set()
+    for b_ in range(cfg.n):
+        if (body_ >> b_) & 1:
+            blk = mir_["blocks"][b_]
+            for s_ in blk["stmts"]:
+                if s_["k"] == "assign":
+                    written.add(s_["place"]["local"])
+            if blk["term"]["k"] == "call":
+                written.add(blk["term"]["dest"]["local"])
+    carried = [l for l in sorted(frame0) if l in frame1 and (frame1[l] is not frame0[l] or (l in written and frame0[l][0] == "c"))]
     iters = [l for l in carried if frame0[l][0] == "agg" and frame0[l][1][0] == "model"]
     if len(iters) != 1 or frame0[iters[0]][1][1] not in ("ArrayIter", "SliceIter"):
         return bestof_peel(ctx, path, n, rule, need, ob, key, sty, k5v, "the loop does not iterate over a constant array")
@@ -1602,75 +1771,35 @@ def bestof_loop(ctx, path, n, rule, need):
     cand = X[2][0]
     ob("candidate-is-five", short(path), cand[0] == "agg" and cand[1] == ("adt", FIVE, 0), "the ranked candidate is not a five-card hand", where)
     xa = atom("$x", "u16")
-    best2_x = substitute(best2, lambda nd: xa if nd is X else None)
-    stray = sorted(set(atoms_of(best2_x)) - {names[l_best][1], "$x"})
-    ob("value-only-update", short(path), not stray,
-       "the new best value depends on %s besides the best so far and the ranking of the current candidate (state carried between iterations, or the candidate's words read directly)" % stray, where)
-    # decision table over the order types of (best so far, candidate value)
+    cs = arr_of(cand)
+    cnames = ["$c%d" % j for j in range(5)]
+    cmap = {id(c_): atom(nm, "u32") for c_, nm in zip(cs or [], cnames)} if cs is not None and len(cs) == 5 else {}
     batoms = [x[1] for x in arr_of(names[l_hand])] if l_hand is not None else []
+    other = {a[1]: 0 for l, a in names.items() if a[0] == "atom" and l != l_best}
+
+    def norm_(d):
+        d = substitute(d, lambda nd: xa if nd is X else None)
+        return substitute(d, lambda nd: cmap.get(id(nd)))
+    best2_x = norm_(best2)
+    hand2_x = norm_(hand2) if hand2 is not None else None
     base_env = {"s%d" % i: 100 + i for i in range(n)}
     base_env.update({"p%d" % j: j for j in range(5)})
-    base_env.update({nm: 200 + j for j, nm in enumerate(batoms)})
-    for l, a in names.items():
-        if a[0] == "atom" and l != l_best:
-            base_env[a[1]] = 0
-    badv = badw = None
-    for bv_ in (0, 5, 9):
-        for xv in (0, 3, 5, 7, 9, 12):
-            env = dict(base_env)
-            env[names[l_best][1]] = bv_
-            env["$fn:" + k5v] = (lambda a, xv=xv: C(xv, "u16"))
-            env["$contract:find_in_products"] = lambda k: C(0, "usize")
-            gotv = cval(evaluate(pdb, best2, env))
-            if bv_ == 0:
-                expv = xv
-            else:
-                expv = xv if (xv != 0 and xv < bv_) else bv_
-            if gotv != expv:
-                badv = badv or (bv_, xv, gotv, expv)
-            if hand2 is None:
-                continue
-            goth = [cval(x) for x in arr_of(evaluate(pdb, hand2, env))]
-            cand_v = [cval(x) for x in arr_of(evaluate(pdb, cand, env))]
-            old_v = [200 + j for j in range(5)]
-            if expv == xv and xv != bv_:
-                if goth != cand_v:
-                    badw = badw or (bv_, xv, "kept the old hand although the candidate set the new best value")
-            elif expv == bv_ and xv != bv_:
-                if goth != old_v:
-                    badw = badw or (bv_, xv, "replaced the remembered hand although the best value did not change")
-            else:
-                if goth not in (cand_v, old_v):
-                    badw = badw or (bv_, xv, "remembered hand is neither the candidate nor the previous best")
-    rep.evals(36)
-    ob("keeps-smallest-nonzero", short(path), badv is None,
-           "with best so far %s and candidate value %s the loop keeps %s, the smallest non-zero value is %s" % (badv or (0, 0, 0, 0)), where)
-    ob("witness-follows-value", short(path), badw is None, "with best so far %s and candidate value %s: %s" % (badw or (0, 0, "")), where)
-    # (C04) a non-zero candidate never leaves the running best at 0
-    badz = None
-    for bv_ in (0, 5):
-        for xv in (3, 5, 7):
-            env = dict(base_env)
-            env[names[l_best][1]] = bv_
-            env["$fn:" + k5v] = (lambda a, xv=xv: C(xv, "u16"))
-            env["$contract:find_in_products"] = lambda k: C(0, "usize")
-            if cval(evaluate(pdb, best2, env)) == 0:
-                badz = (bv_, xv)
-    ob("nonzero-preserving", short(path), badz is None, "with best so far %s and a candidate of value %s the running best becomes 0" % (badz or (0, 0)), where)
+    ncases = decide_update(ctx, ob, path, where, best2_x, hand2_x, names[l_best][1], "$x", cnames, batoms)
     # candidate slots come from the selected row of the receiver
-    cs = arr_of(cand)
     okp = cs is not None and len(cs) == 5
     if okp:
+        # with the row fixed, each card of the candidate must be the named slot of the receiver itself (the same
+        # node, not merely a word that agrees with it on some sample)
         for rowv in [list(r) for r in table]:
-            env = dict(base_env)
-            env.update({"p%d" % j: rowv[j] for j in range(5)})
-            got = [cval(evaluate(pdb, x, env)) for x in cs]
-            okp = okp and got == [100 + r for r in rowv]
-    ob("candidate-from-row", short(path), okp, "the ranked candidate is not made of the receiver's slots named by the current table row", where)
+            pm = {"p%d" % j: C(rowv[j], "u8") for j in range(5)}
+            for j, x in enumerate(cs):
+                g = substitute(x, lambda nd: pm.get(nd[1]) if nd[0] == "atom" else None)
+                okp = okp and g is atom("s%d" % rowv[j], "u32")
+    ob("candidate-from-row", short(path), okp, "the ranked candidate is not made of plain copies of the receiver's slots named by the current table row", where)
     for o in body_obs:
         pass
     rep.sample({"rule": rule, "container": short(path), "loop_header_block": h, "carried_locals": carried,
-                "decision_table_cases": 18, "callee": k5v})
+                "decision_table_cases": ncases or 0, "callee": k5v})
     return dict(key=key, callee=k5v, body_obs=body_obs, l_best=l_best, l_hand=l_hand, ex=ex)
 
 
@@ -1780,6 +1909,7 @@ def bestof_peel(ctx, path, n, rule, need, ob, key, sty, k5v, why):
     remaining = list(calls)
     steps = 0
     badv = badz = None
+    uncomputed = None
     stray_all = set()
     order_ = []
     while remaining:
@@ -1799,23 +1929,32 @@ def bestof_peel(ctx, path, n, rule, need, ob, key, sty, k5v, why):
             stray.add("the value of another candidate")
         stray_all |= stray
         if not stray:
-            for bv_ in ((0, 5, 9) if (prev is not None and prev[0] != "c") else ((prev[1],) if prev is not None else (0,))):
-                for xv in (0, 3, 5, 7, 9, 12):
-                    got = cval(evaluate(pdb, T, {"$b": bv_, "$x": xv, "$contract:find_in_products": lambda k: C(0, "usize")}))
-                    expv = xv if bv_ == 0 else (xv if (xv != 0 and xv < bv_) else bv_)
-                    if got != expv:
-                        badv = badv or (bv_, xv, got, expv)
-                    if xv != 0 and got == 0:
-                        badz = badz or (bv_, xv)
-            rep.evals(18)
+            consts_, why_ = value_use([T], {"$b", "$x"})
+            if why_ is not None:
+                uncomputed = why_
+            else:
+                reps_ = value_reps(consts_)
+                for bv_ in (reps_ if (prev is not None and prev[0] != "c") else ((prev[1],) if prev is not None else (0,))):
+                    for xv in reps_:
+                        got = cval(evaluate(pdb, T, {"$b": bv_, "$x": xv, "$contract:find_in_products": lambda k: C(0, "usize")}))
+                        expv = xv if bv_ == 0 else (xv if (xv != 0 and xv < bv_) else bv_)
+                        if got != expv:
+                            badv = badv or (bv_, xv, got, expv)
+                        if xv != 0 and got == 0:
+                            badz = badz or (bv_, xv)
+                rep.evals(len(reps_) ** 2)
         cur = prev if prev is not None else C(0, "u16")
         remaining.remove(X)
         steps += 1
     ob("value-only-update", short(path), not stray_all,
        "a best-so-far update depends on %s besides the best so far and the ranking of its candidate" % sorted(stray_all), where)
     ob("ranks-one-candidate", short(path), True)
-    ob("keeps-smallest-nonzero", short(path), badv is None, "with best so far %s and candidate value %s an update keeps %s, the smallest non-zero value is %s" % (badv or (0, 0, 0, 0)), where)
-    ob("nonzero-preserving", short(path), badz is None, "with best so far %s and a candidate of value %s the best becomes 0" % (badz or (0, 0)), where)
+    if uncomputed is not None:
+        for nm_ in ("keeps-smallest-nonzero", "nonzero-preserving"):
+            ob(nm_, short(path), False, "UNCERTIFIED: an update computes with the values instead of comparing them (%s): it cannot be tabulated over all pairs of values" % uncomputed, where)
+    else:
+        ob("keeps-smallest-nonzero", short(path), badv is None, "with best so far %s and candidate value %s an update keeps %s, the smallest non-zero value is %s" % (badv or (0, 0, 0, 0)), where)
+        ob("nonzero-preserving", short(path), badz is None, "with best so far %s and a candidate of value %s the best becomes 0" % (badz or (0, 0)), where)
     ob("initial-best", short(path), cur[0] == "c" and cur[1] == 0, "the chain of updates does not start from 0 (no hand yet)", where)
     ob("result-is-running-best", short(path), True)
     if want_witness:
@@ -1999,37 +2138,16 @@ def bestof_reduction(ctx, path, n, rule, need, ob, key, sty, k5v):
             ob("loop-shape", short(path), False, "the reduction's items are not (value, hand) pairs", where)
             return None
     new_h = [x[1] for x in arr_of(ih)]
-    badv = badw = badz = None
-    for bv_ in (0, 5, 9):
-        for xv in (0, 3, 5, 7, 9, 12):
-            env = {best_a[1]: bv_}
-            if iv is not None:
-                env[iv[1]] = xv
-            else:
-                env["$fn:" + k5v] = (lambda a, xv=xv: C(xv, "u16"))
-            env.update({nm: 200 + j for j, nm in enumerate(old_h)})
-            env.update({nm: 300 + j for j, nm in enumerate(new_h)})
-            gotv = cval(evaluate(pdb, nxt[2][ix_v], env))
-            expv = xv if bv_ == 0 else (xv if (xv != 0 and xv < bv_) else bv_)
-            if gotv != expv:
-                badv = badv or (bv_, xv, gotv, expv)
-            if xv != 0 and gotv == 0:
-                badz = (bv_, xv)
-            goth = [cval(x) for x in arr_of(evaluate(pdb, nxt[2][ix_h], env))]
-            cand_v = [300 + j for j in range(5)]
-            old_v = [200 + j for j in range(5)]
-            if expv == xv and xv != bv_:
-                if goth != cand_v:
-                    badw = badw or (bv_, xv, "kept the old hand although the candidate set the new best value")
-            elif expv == bv_ and xv != bv_:
-                if goth != old_v:
-                    badw = badw or (bv_, xv, "replaced the remembered hand although the best value did not change")
-            elif goth not in (cand_v, old_v):
-                badw = badw or (bv_, xv, "remembered hand is neither the candidate nor the previous best")
-    rep.evals(36)
-    ob("keeps-smallest-nonzero", short(path), badv is None, "with best so far %s and candidate value %s the step keeps %s, the smallest non-zero value is %s" % (badv or (0, 0, 0, 0)), where)
-    ob("witness-follows-value", short(path), badw is None, "with best so far %s and candidate value %s: %s" % (badw or (0, 0, "")), where)
-    ob("nonzero-preserving", short(path), badz is None, "with best so far %s and a candidate of value %s the running best becomes 0" % (badz or (0, 0)), where)
+    Tv, Th = nxt[2][ix_v], nxt[2][ix_h]
+    if iv is None:
+        xa_ = atom("$x", "u16")
+        rc_ = [x for x in walk(nxt) if x[0] == "call" and x[1] == "fn:" + k5v]
+        Tv = substitute(Tv, lambda nd: xa_ if (nd[0] == "call" and nd[1] == "fn:" + k5v) else None)
+        Th = substitute(Th, lambda nd: xa_ if (nd[0] == "call" and nd[1] == "fn:" + k5v) else None)
+        xname_ = "$x"
+    else:
+        xname_ = iv[1]
+    decide_update(ctx, ob, path, where, Tv, Th, best_a[1], xname_, new_h, old_h)
     ob("candidate-is-five", short(path), True)
     # the function returns the reduction's value, and its hand under a descending sort
     result = red.get("result")
@@ -2053,7 +2171,7 @@ def bestof_reduction(ctx, path, n, rule, need, ob, key, sty, k5v):
                     okw = False
                     break
     ob("witness-sorted", short(path), okw, "the reported hand is not the reduction's best candidate arranged in descending card order", where)
-    rep.sample({"rule": rule, "container": short(path), "form": "iterator reduction (fold)", "items": len(items), "decision_table_cases": 18})
+    rep.sample({"rule": rule, "container": short(path), "form": "iterator reduction (fold)", "items": len(items)})
     return dict(key=key, callee=k5v, body_obs=[], ex=ex)
 
 
@@ -2133,7 +2251,7 @@ def describe_cond(g):
 
 NEED_MIN = {"value-only-update", "iterates-table", "no-early-exit", "keeps-smallest-nonzero", "result-is-running-best", "initial-best",
             "candidate-from-row", "ranks-one-candidate", "candidate-is-five"}
-NEED_WITNESS = {"witness-follows-value", "witness-sorted", "result-is-running-best", "ranks-one-candidate", "candidate-from-row",
+NEED_WITNESS = {"witness-follows-value", "witness-matches-value", "witness-sorted", "result-is-running-best", "ranks-one-candidate", "candidate-from-row",
                 "candidate-is-five", "candidate-distinct-slots"}
 
 
